@@ -81,6 +81,12 @@ def num_deriv(g, v, order):
     return sum(wi * g(v + (i - r) * h) for i, wi in enumerate(w)) / h ** order
 
 
+def rounding(g, v):
+    """what floating-point cancellation can contribute: to the reference derivative (step 1e-3) and to a scheme with step H"""
+    gmax = max(abs(g(q)) for q in (v - 2 * H, v - H, v, v + H, v + 2 * H))
+    return 1e-9 * gmax
+
+
 def bound(g, v, p):
     """truncation bound of the order-p scheme: C h^p max|g^(p+1)| over the stencil interval (sampled), with safety factor 3"""
     C = {4: 1.0 / 30, 2: 1.0 / 6, 1: 0.5}[p]
@@ -118,7 +124,7 @@ def check(c, item):
                 if abs(J[i, j] - st) > 1e-7 * scale:
                     c.violation('C18/jacobian/%s/stencil' % method, 'd f_%s / d %s = %r, the %s scheme on the rate equations gives %r (analytic %r)' % (
                         order[i], order[j], J[i, j], method, st, an), dict(case, i=i, j=j, method=method))
-                elif abs(J[i, j] - an) > bound(g, x_model[j], p) + 1e-6 * scale:
+                elif abs(J[i, j] - an) > bound(g, x_model[j], p) + 1e-6 * scale + rounding(g, x_model[j]):
                     c.violation('C18/jacobian/%s/accuracy' % method, 'd f_%s / d %s = %r, analytic derivative %r, allowed truncation %r' % (
                         order[i], order[j], J[i, j], an, bound(g, x_model[j], p)), dict(case, i=i, j=j, method=method))
         for pname in list(before):
@@ -139,7 +145,7 @@ def check(c, item):
                 if abs(Z[i] - st) > 1e-7 * scale:
                     c.violation('C18/sensitivity/%s/stencil' % method, 'd f_%s / d %s = %r, the %s scheme gives %r (analytic %r)' % (
                         order[i], pname, Z[i], method, st, an), dict(case, i=i, param=pname, method=method))
-                elif abs(Z[i] - an) > bound(g, P0[pname], p) + 1e-6 * scale:
+                elif abs(Z[i] - an) > bound(g, P0[pname], p) + 1e-6 * scale + rounding(g, P0[pname]):
                     c.violation('C18/sensitivity/%s/accuracy' % method, 'd f_%s / d %s = %r, analytic %r, allowed truncation %r' % (
                         order[i], pname, Z[i], an, bound(g, P0[pname], p)), dict(case, i=i, param=pname, method=method))
             after = dict(m.get_parameter_dictionary())
@@ -209,10 +215,24 @@ def run(ctx):
             vals = SVALS if sp['name'] != 'poly_near_zero' else [0.004, 0.015, 2.0]
             for si, st in enumerate(itertools.product(vals, repeat=ns)):
                 items.append((sp, dict(zip(sp['species'], st))))
+            # counts of a thousand and more (a step of 0.01 is relatively tiny there)
+            items.append((sp, dict(zip(sp['species'], [2500.0, 1200.0, 1000.0]))))
+            items.append((sp, dict(zip(sp['species'], [1000.0, 0.7, 3000.0]))))
+            if all(r['kind'] == 'massaction' for r in sp['reactions']):
+                # polynomial rate equations: states at which a whole row of the rate equations is exactly zero (a species at 0,
+                # or production cancelling consumption exactly) - where a stability Jacobian is wanted
+                k_, k2_ = sp['params']['k'], sp['params']['k2']
+                items.append((sp, dict(zip(sp['species'], [0.0, 2.0, 0.0]))))
+                items.append((sp, dict(zip(sp['species'], [2.0, 0.0, 5.5]))))
+                if sp['name'] == 'ma2rep':
+                    for a_ in (1.0, 2.0, 4.0):
+                        b_ = k_ * a_ * a_ / k2_
+                        if k_ * a_ * a_ - k2_ * b_ == 0.0:
+                            items.append((sp, {A: a_, B: b_}))
     pmap(check, items, ctx, nshards=256)
     ctx.bounds = dict(parameter_vectors=len(pvs), cases=len(items), h=H, methods=list(METHODS))
     ctx.rule = ('E2: 15 smooth networks (mass action of order 1..4 with repeated reactants, four Hill families, rational and exponential '
-                'general rates; 1..3 species) x states from {0.7,2,5.5}^n x parameter vectors from {0.1,1,3.2} (Hill exponents 1, 2, 2.5) x '
+                'general rates; 1..3 species) x states from {0.7,2,5.5}^n, two states with counts 1000..3000, and for the polynomial networks states with species at exactly 0 and exact steady states (a row of the rate equations exactly zero) x parameter vectors from {0.1,1,3.2} (Hill exponents 1, 2, 2.5) x '
                 'every named parameter x the four difference schemes. Oracle: (1) the same stencil (h=0.01) applied to the reference rate '
                 'equations, 1e-7 relative - catches coefficients, signs, orientation, wrong column; (2) the analytic derivative (Richardson-'
                 'extrapolated reference) within the scheme\'s truncation bound C h^p max|f^(p+1)| over the stencil interval; (3) the model\'s '
